@@ -82,11 +82,12 @@ def run(ctx):
     for name, why in ts_stale:
         ctx.notes.append("proof_stale: %s (%s) - decided by clause O5 of the frame monitor" % (name, why))
     mon, totals = runner.run_sharded(drive_sched.work, ctx.tier)
-    for name, ok_, text in ts_obls:
-        if not ok_:
-            o5 = [f for f in mon.failures if "O5" in f.obligation or "pooled-equals-serial" in f.obligation]
-            ctx.violation(core.Violation("C16", name, "the pooled branch does not hand the pool the serial branch's tasks: %s" % text, input=o5[0].input if o5 else None,
-                                         cls={"site": name}, solver={"site": text}, no_input=not o5))
+    # a structural obligation is a pattern: matching it proves the clause for all inputs, not matching it proves nothing (O5 decides)
+    ts_stale += [(name, "pooled and serial branches are not syntactically the same enumeration: %s" % text) for name, ok_, text in ts_obls if not ok_]
+    ts_obls = [o for o in ts_obls if o[1]]
+    for name, why in ts_stale:
+        if "not syntactically" in why:
+            ctx.notes.append("proof_stale: %s (%s) - decided by clause O5 of the frame monitor" % (name, why))
     expect = list(EXPECT)
     nstale = sum(n for ob, n in mon.evals.items() if ob.endswith("/frame-monitor-stale"))
     if nstale:
